@@ -82,6 +82,8 @@ inductive TExpr
   | tuple (elts : List TExpr)
   | attr (value : TExpr) (attr : Str)
   | list (elts : List TExpr)
+  /-- `left | right` (PEP 604 union: `ast.BinOp` with `BitOr`) -/
+  | binop (left right : TExpr)
 deriving Repr, Inhabited
 
 /-- `ast.iter_child_nodes` without the `ctx` nodes (which no visitor here looks at) -/
@@ -91,6 +93,7 @@ def TExpr.children : TExpr → List TExpr
   | .tuple es => es
   | .attr v _ => [v]
   | .list es => es
+  | .binop l r => [l, r]
 
 mutual
 def TExpr.size : TExpr → Nat
@@ -99,6 +102,7 @@ def TExpr.size : TExpr → Nat
   | .tuple es => 1 + sizeList es
   | .attr v _ => 1 + v.size
   | .list es => 1 + sizeList es
+  | .binop l r => 1 + l.size + r.size
 def sizeList : List TExpr → Nat
   | [] => 0
   | e :: es => e.size + sizeList es
